@@ -34,6 +34,8 @@ def cases(tier, seed):
                  aniso=(i % 3 != 0), nlevels=1 + i % 3, bf=bf, base_blocks=(1, 2) if bf == 4 else (2, 3))
         if i % 6 == 5:
             g["time"] = rng.choice([0.0, 2.0, 100.0])
+        if i % 4 == 2:      # header flavour with an integer line before the time (also with whole-number times)
+            g["header_int"] = [1, 0, 7][(i // 4) % 3]
         cs.append({"gen": g, "sel_seed": seed * 79 + i})
     return cs
 
@@ -159,6 +161,8 @@ def run_one(case, work, rec, gparams, chkname, nconf):
     digest = common.sha(g)
     species = SPECIES[:m.nspecies]
     integer_time = float(m.time) % 1 == 0
+    if g.get("header_int") is not None:
+        rec.count("header_with_integer_line")
     rec.sample({"checkpoint": gen.describe(m), "nghost": m.nghost, "nspecies": m.nspecies, "time": m.time})
     aniso = len(set(m.dx[0])) > 1
     diff_dist = any(m.sublayout[(lv, "state")]["file_of"] != m.sublayout[(lv, s)]["file_of"] and
